@@ -85,8 +85,16 @@ class Check:
         counts: dict[str, int] = {}
         for i in self.instances:
             counts[i.rule] = counts.get(i.rule, 0) + 1
+        unlisted = [
+            i for i in self.instances
+            if not i.ok and (self.prop, i.rule, i.key) not in {(f["property"], f["rule"], f["key"]) for f in self.known.get("findings", [])}
+        ]
         for rule, floor in self.floors.items():
             if counts.get(rule, 0) < floor:
+                if unlisted:
+                    # a reported violation is more specific than "the rule lost instances"
+                    print(f"note: rule {rule} matched {counts.get(rule, 0)} instance(s), floor {floor}")
+                    continue
                 raise AnalysisError(
                     f"rule {rule} matched {counts.get(rule, 0)} instance(s), fewer than the floor {floor} confirmed by reading: "
                     "an anchor moved or the rule no longer recognises the code"
